@@ -46,6 +46,8 @@ MEM_BUDGET_GB = int(os.environ.get("VERIF_MEM_GB", "52"))
 CORES = int(os.environ.get("VERIF_CORES", str(os.cpu_count() or 4)))
 BUDGET_FILE = SCRATCH_ROOT / "verif-budget.json"
 
+VERIF_BASE = 0x5EEDC0DE00000000      # harness/support.rs
+
 CBMC_FLAGS = [
     "--no-malloc-may-fail", "--no-undefined-shift-check",
     "--no-signed-overflow-check", "--nan-check",
@@ -267,7 +269,7 @@ def stage(scratch, files):
         if not target.exists():
             raise SystemExit("INCONCLUSIVE: module file %s missing in %s" % (hf.module, REPO))
         with open(target, "a") as f:
-            f.write('\n%s #[path = "%s"] mod verif_%s;\n' % (guard, hf.path, hf.stem))
+            f.write('\n%s #[path = "%s"] pub(crate) mod verif_%s;\n' % (guard, hf.path, hf.stem))
     # silence the unexpected-cfg lint without touching the repo's Cargo.toml semantics
     return repo
 
@@ -386,9 +388,11 @@ def stats_from_msgs(msgs):
 
 
 def classify_result(r):
-    """-> 'ok' | 'bound' | 'reach' | 'cand'"""
+    """-> 'ok' | 'error' | 'bound' | 'reach' | 'cand'"""
     if r.get("status") == "SUCCESS":
         return "ok"
+    if r.get("status") != "FAILURE":
+        return "error"          # ERROR / UNKNOWN: solver ran out of memory or crashed
     desc = r.get("description", "")
     pid = r.get("property", "")
     cls = r.get("sourceLocation", {}).get("propertyClass", "")
@@ -422,7 +426,32 @@ def solve(h, goto, work, extra=None, tag="main", slice_formula=True):
     cmd.append(goto)
     status, wall, rss, rc = run_limited(cmd, str(work), h.mem, h.timeout, str(out))
     parsed = parse_cbmc_json(out) if status == "done" else None
+    if parsed is not None and parsed["results"] is not None:
+        errs = [t for k, t in parsed["msgs"] if k == "ERROR"]
+        if parsed["status"] == "error" or errs or \
+                any(classify_result(r) == "error" for r in parsed["results"]):
+            parsed["solver_error"] = "; ".join(errs)[:300] or "cbmc status error"
     return status, wall, rss, rc, parsed
+
+
+def list_properties(goto):
+    r = subprocess.run(["cbmc", "--show-properties", "--json-ui", goto],
+                       stdout=subprocess.PIPE, stderr=subprocess.DEVNULL)
+    try:
+        data = json.loads(r.stdout.decode(errors="replace"))
+    except Exception:
+        return []
+    for e in data:
+        if "properties" in e:
+            return e["properties"]
+    return []
+
+
+def find_property(props, needle):
+    for p in props:
+        if needle in p.get("description", ""):
+            return p["name"]
+    return None
 
 
 def witness_from_trace(parsed, prop_id):
@@ -436,12 +465,23 @@ def witness_from_trace(parsed, prop_id):
                 if s.get("stepType") != "assignment":
                     continue
                 lhs = s.get("lhs", "")
-                m = re.match(r"VERIF_W\[(\d+)", lhs)
+                m = re.match(r"VERIF_W\[(.*)\]\s*$", lhs)
                 v = s.get("value", {})
-                if m and "binary" in v:
-                    vals[int(m.group(1))] = int(v["binary"], 2)
+                idx = None
+                if m:
+                    # CBMC prints some constant indices as `sizeof(struct ...) /*1ul*/`
+                    mc = re.search(r"/\*\s*(\d+)[a-z]*\s*\*/", m.group(1))
+                    md = re.match(r"\s*(\d+)", m.group(1))
+                    if mc:
+                        idx = int(mc.group(1))
+                    elif md:
+                        idx = int(md.group(1))
+                if idx is not None and "binary" in v:
+                    vals[idx] = int(v["binary"], 2)
                 elif lhs == "VERIF_N" and "binary" in v:
-                    n = int(v["binary"], 2)
+                    n = int(v["binary"], 2) - VERIF_BASE
+            if vals:
+                n = max(n, max(vals) + 1)
             return [vals.get(i, 0) for i in range(n)]
     return None
 
@@ -516,8 +556,12 @@ class Native:
             return {"outcome": "witness-exhausted"}
         m = re.search(r"panicked at ([^\n]*?):(\d+):(\d+):\n([^\n]*)", text)
         if m:
-            return {"outcome": "panic", "file": m.group(1), "line": int(m.group(2)),
-                    "message": m.group(4)[:300]}
+            out = {"outcome": "panic", "file": m.group(1), "line": int(m.group(2)),
+                   "message": m.group(4)[:300]}
+            mi = re.search(r"VERIF_REPLAY_INPUT ([^\n]*)", text)
+            if mi:
+                out["input"] = mi.group(1)[:400]
+            return out
         if r.returncode == 0:
             return {"outcome": "no-panic"}
         return {"outcome": "abnormal", "rc": r.returncode, "text": text[-400:]}
@@ -637,17 +681,67 @@ def run_check(prop, tier, only, keep, seed):
                 rec["inconclusive"].append("link failed: " + funcs[-300:])
                 return
             rec["functions"] = funcs
+            props = list_properties(goto)
+            guard_id = find_property(props, "VERIF_WITNESS_GUARD")
+            if h.twin:
+                # vacuity twin: only the end-of-body assertion (plus the witness guard, which
+                # keeps the input stores alive under slicing) is solved; it must be VIOLATED
+                # and the violating trace must replay natively to the end of the body
+                reach_id = find_property(props, "VERIF_REACH_END")
+                if not reach_id or not guard_id:
+                    rec["verdict"] = "inconclusive"
+                    rec["inconclusive"].append("twin without VERIF_REACH_END / guard property")
+                    return
+                status, wall, rss, rc, parsed = solve(
+                    h, goto, work, extra=["--property", reach_id, "--property", guard_id, "--trace"])
+                rec["wall_s"], rec["rss_mb"] = round(wall, 2), round(rss, 1)
+                if status == "timeout":
+                    rec["verdict"] = "inconclusive"
+                    rec["inconclusive"].append("timeout after %ds" % h.timeout)
+                    return
+                if parsed is None or parsed["results"] is None or parsed.get("solver_error"):
+                    rec["verdict"] = "inconclusive"
+                    rec["inconclusive"].append(
+                        "cbmc gave no complete result (rc=%s; out of memory under the %d GB cap, or error: %s)"
+                        % (rc, h.mem, (parsed or {}).get("solver_error", "no output")))
+                    return
+                rec["stats"] = stats_from_msgs(parsed["msgs"])
+                rs = parsed["results"]
+                rec["properties"] = len(rs)
+                rec["proved"] = sum(1 for r in rs if r.get("status") == "SUCCESS")
+                for r in rs:
+                    if classify_result(r) == "bound":
+                        rec["inconclusive"].append("bound too small: %s [%s]"
+                                                   % (r.get("description", ""), r.get("property", "")))
+                reach = [r for r in rs if classify_result(r) == "reach"]
+                if not reach:
+                    rec["inconclusive"].append(
+                        "VACUOUS: end of harness body unreachable (assumptions unsatisfiable "
+                        "or every path panics/diverges earlier)")
+                else:
+                    w = witness_from_trace(parsed, reach[0]["property"])
+                    if w is None:
+                        rec["inconclusive"].append("could not extract reach witness")
+                    else:
+                        rp = native.run(h, w, "dev")
+                        rec["replays"] += 1
+                        rec["reach_witness"] = w
+                        if not (rp["outcome"] == "panic" and "VERIF_REACH_END" in rp.get("message", "")):
+                            rec["inconclusive"].append(
+                                "reach witness does not replay natively to the end of the body: %s" % rp)
+                rec["verdict"] = "inconclusive" if rec["inconclusive"] else "reachable"
+                return
             status, wall, rss, rc, parsed = solve(h, goto, work)
             rec["wall_s"], rec["rss_mb"] = round(wall, 2), round(rss, 1)
             if status == "timeout":
                 rec["verdict"] = "inconclusive"
                 rec["inconclusive"].append("timeout after %ds" % h.timeout)
                 return
-            if parsed is None or parsed["results"] is None:
+            if parsed is None or parsed["results"] is None or parsed.get("solver_error"):
                 rec["verdict"] = "inconclusive"
                 rec["inconclusive"].append(
-                    "cbmc gave no result (rc=%s; out of memory under the %d GB cap, or error)"
-                    % (rc, h.mem))
+                    "cbmc gave no complete result (rc=%s; out of memory under the %d GB cap, or error: %s)"
+                    % (rc, h.mem, (parsed or {}).get("solver_error", "no output")))
                 return
             rec["stats"] = stats_from_msgs(parsed["msgs"])
             rs = parsed["results"]
@@ -659,37 +753,30 @@ def run_check(prop, tier, only, keep, seed):
             for r in kinds.get("bound", []):
                 rec["inconclusive"].append("bound too small: %s [%s]"
                                            % (r.get("description", ""), r.get("property", "")))
-            if h.twin:
-                # the vacuity twin: VERIF_REACH_END must be violated and must replay
-                reach = kinds.get("reach", [])
-                if not reach:
-                    rec["inconclusive"].append(
-                        "VACUOUS: end of harness body unreachable (assumptions unsatisfiable "
-                        "or every path panics/diverges earlier)")
-                else:
-                    w = get_witness(h, goto, reach[0])
-                    if w is None:
-                        rec["inconclusive"].append("could not extract reach witness")
-                    else:
-                        rp = native.run(h, w, "dev")
-                        rec["replays"] += 1
-                        rec["reach_witness"] = w
-                        if not (rp["outcome"] == "panic" and "VERIF_REACH_END" in rp.get("message", "")):
-                            rec["inconclusive"].append(
-                                "reach witness does not replay natively to the end of the body: %s" % rp)
-                rec["inconclusive"] = [m for m in rec["inconclusive"]]
-                rec["verdict"] = "inconclusive" if rec["inconclusive"] else "reachable"
-                return
+            for r in kinds.get("reach", []):
+                rec["inconclusive"].append("VERIF_REACH_END failed in a non-twin harness")
             cands = kinds.get("cand", [])
-            seen_labels = set()
+            chosen, seen_labels = [], set()
             for r in cands:
                 lab = label_of(r)
                 if lab in seen_labels:
                     continue
                 seen_labels.add(lab)
-                if len(seen_labels) > 6:
+                chosen.append((lab, r))
+                if len(chosen) >= 6:
                     break
-                w = get_witness(h, goto, r)
+            traces = None
+            if chosen:
+                extra = ["--trace"]
+                for _, r in chosen:
+                    extra += ["--property", r["property"]]
+                if guard_id:
+                    extra += ["--property", guard_id]
+                st2, wall2, rss2, rc2, traces = solve(h, goto, work, extra=extra, tag="trace")
+                rec["wall_s"] = round(rec["wall_s"] + wall2, 2)
+                rec["rss_mb"] = max(rec["rss_mb"], round(rss2, 1))
+            for lab, r in chosen:
+                w = witness_from_trace(traces, r["property"])
                 if w is None:
                     rec["inconclusive"].append("no witness for failed property %s" % r.get("property"))
                     continue
@@ -732,13 +819,6 @@ def run_check(prop, tier, only, keep, seed):
                 rec["verdict"] = "known-finding"
             else:
                 rec["verdict"] = "proved"
-
-        def get_witness(h, goto, r):
-            st, wall, rss, rc, parsed = solve(
-                h, goto, work, extra=["--property", r["property"], "--trace"],
-                tag="trace-" + hashlib.sha1(r["property"].encode()).hexdigest()[:8],
-                slice_formula=False)
-            return witness_from_trace(parsed, r["property"])
 
         threads = []
         for h in harnesses:
